@@ -22,8 +22,8 @@
         without a change set with exactly its initial content;
       - C03_run_diffs_compose: in a real run with distinct codemod ids, the diffs reported for a path, in report
         order, fold from the initial content to the final content (up to norm_nl); conditional on explicit premises
-        (see Proofs/RunDiff.v): [Hbase] (old side of the pipeline diff = file text: Run.v's diff_base is still the
-        FromTrees form, so this is the libcst contract there), the matcher's two contracts, transformers introduce
+        (see Proofs/RunDiff.v): the table value t_diff = diff_source = FromFileText (old side of the pipeline diff = file text; the
+        statement's other branch is True and C03_run_tables_branch shows which one /repo takes), the matcher's two contracts, transformers introduce
         no exotic line boundary, and [HW]: the four manifest writers' (diff, content) pairs have the round trip -
         the writers are oracles of Run.v and HW is NOT proved (it is false on /repo for kf_manifest_crlf and
         kf_pyproject_phantom_line); so for manifests the claim rests on the end-to-end observation;
@@ -194,13 +194,16 @@ Theorem C03_unchanged_files_identical : C03_unchanged_statement.
 Proof. exact C03_unchanged. Qed.
 Print Assumptions C03_unchanged_files_identical.
 
+Definition diff_from_text (tb : run_tables) : bool := match t_diff tb with FromFileText => true | FromTrees => false end.
+Lemma diff_from_text_eq tb : diff_from_text tb = true -> t_diff tb = FromFileText.
+Proof. unfold diff_from_text. destruct (t_diff tb); [discriminate|reflexivity]. Qed.
+
 Definition C03_run_diffs_compose_statement (tb : run_tables) : Prop :=
-  if nochange_guarded tb then
+  if nochange_guarded tb && diff_from_text tb then
     forall (tree : Type) parse code T S R (matcher : list str -> list str -> script) W fsel (cfg : config) (p : path),
       (forall a b, a_of (matcher a b) = a /\ b_of (matcher a b) = b) ->
       (forall a, hunks (matcher a a) = []) ->
       dry_run cfg = false ->
-      (forall K b t, parse (cpipe K) b = Some t -> diff_base tree code (cpipe K) b t = b) ->
       (forall K b t fi t' chs ds, parse (cpipe K) b = Some t -> T K t fi = Changed t' chs ds -> clean b ->
                                   clean (code (cpipe K) t')) ->
       (forall k b ds b' d chs, W k (Some b) ds = Some (b', d, chs) -> clean b ->
@@ -215,8 +218,9 @@ Definition C03_run_diffs_compose_statement (tb : run_tables) : Prop :=
 Lemma C03_run_diffs_compose_all tb : C03_run_diffs_compose_statement tb.
 Proof.
   unfold C03_run_diffs_compose_statement. destruct (nochange_guarded tb) eqn:G; [|exact I].
-  intros tree parse code T S R matcher W fsel cfg p Hv He Hdry Hbase HT HW Ks fs stores s' c Hr Hnd Hl Hc.
-  exact (run_diffs_compose tb tree parse code T S R (real_diff matcher) W fsel cfg p Hdry G Hbase
+  destruct (diff_from_text tb) eqn:D; [|exact I]. cbn [andb]. apply diff_from_text_eq in D.
+  intros tree parse code T S R matcher W fsel cfg p Hv He Hdry HT HW Ks fs stores s' c Hr Hnd Hl Hc.
+  exact (run_diffs_compose tb tree parse code T S R (real_diff matcher) W fsel cfg p Hdry G D
            (real_diff_roundtrip matcher Hv) (real_diff_refl matcher He) HT HW Ks fs stores s' c Hr Hnd Hl Hc).
 Qed.
 Theorem C03_run_diffs_compose : C03_run_diffs_compose_statement run_tables_v.
@@ -224,12 +228,11 @@ Proof. exact (C03_run_diffs_compose_all run_tables_v). Qed.
 Print Assumptions C03_run_diffs_compose.
 
 Definition C03_changeset_changes_file_statement (tb : run_tables) : Prop :=
-  if nochange_guarded tb then
+  if nochange_guarded tb && diff_from_text tb then
     forall (tree : Type) parse code T (matcher : list str -> list str -> script) (cfg : config) (p : path),
       (forall a b, a_of (matcher a b) = a /\ b_of (matcher a b) = b) ->
       (forall a, hunks (matcher a a) = []) ->
       dry_run cfg = false ->
-      (forall K b t, parse (cpipe K) b = Some t -> diff_base tree code (cpipe K) b t = b) ->
       (forall K b t fi t' chs ds, parse (cpipe K) b = Some t -> T K t fi = Changed t' chs ds -> clean b ->
                                   clean (code (cpipe K) t')) ->
       forall K res (fs : fsys) cx cs b,
@@ -242,8 +245,9 @@ Definition C03_changeset_changes_file_statement (tb : run_tables) : Prop :=
 Lemma C03_changeset_changes_file_all tb : C03_changeset_changes_file_statement tb.
 Proof.
   unfold C03_changeset_changes_file_statement. destruct (nochange_guarded tb) eqn:G; [|exact I].
-  intros tree parse code T matcher cfg p Hv He Hdry Hbase HT K res fs cx cs b Hg Hl Hc Hf Hin.
-  exact (changeset_changes_file tb tree parse code T (real_diff matcher) cfg p Hdry G Hbase
+  destruct (diff_from_text tb) eqn:D; [|exact I]. cbn [andb]. apply diff_from_text_eq in D.
+  intros tree parse code T matcher cfg p Hv He Hdry HT K res fs cx cs b Hg Hl Hc Hf Hin.
+  exact (changeset_changes_file tb tree parse code T (real_diff matcher) cfg p Hdry G D
            (real_diff_roundtrip matcher Hv) (real_diff_refl matcher He) HT K res fs cx cs b Hg Hl Hc Hf Hin).
 Qed.
 Theorem C03_changeset_changes_file : C03_changeset_changes_file_statement run_tables_v.
@@ -252,7 +256,7 @@ Print Assumptions C03_changeset_changes_file.
 
 (** the positive branches are the ones taken on the tables extracted from /repo, and which pipelines test the diff *)
 Example C03_run_tables_branch :
-  nochange_guarded run_tables_v = true /\
+  nochange_guarded run_tables_v = true /\ diff_from_text run_tables_v = true /\
   has_guard IfNoDiff (guards_of run_tables_v PLibcst) = true /\ has_guard IfNoDiff (guards_of run_tables_v PXml) = true.
 Proof. vm_compute. repeat split. Qed.
 Example C03_regex_has_no_diff_guard : has_guard IfNoDiff (guards_of run_tables_v PRegex) = false.
@@ -270,17 +274,14 @@ Definition ex_run := run run_tables_v bytes (fun _ b => Some b) (fun _ t => t) e
 Example C03_run_example :
   (forall a b, a_of (whole_matcher a b) = a /\ b_of (whole_matcher a b) = b) /\
   (forall a, hunks (whole_matcher a a) = []) /\
-  (forall (K : codemod) (b t : bytes), (fun (_ : pipe_kind) (x : bytes) => Some x) (cpipe K) b = Some t ->
-      diff_base bytes (fun _ t => t) (cpipe K) b t = b) /\
   (forall K b t fi t' chs ds, Some b = Some t -> ex_T K t fi = Changed t' chs ds -> clean b -> clean t') /\
   exists s', ex_run = Run.Ok s' /\ lookup (s_fs s') [102] = Some [98; 10] /\
              fold_apply (reported [102] [ex_K] s') [97; 10] = Some [98; 10] /\ reported [102] [ex_K] s' <> [].
 Proof.
-  split; [|split; [|split; [|split]]].
+  split; [|split; [|split]].
   - intros a b. unfold whole_matcher, a_of, b_of.
     destruct (list_eqb_spec str_eqb str_eqb_spec a b) as [->|_]; cbn; rewrite ?app_nil_r; split; reflexivity.
   - intros a. unfold whole_matcher. destruct (list_eqb_spec str_eqb str_eqb_spec a a) as [_|H]; [reflexivity|congruence].
-  - intros K b t [= <-]. unfold diff_base. destruct (cpipe K); reflexivity.
   - intros K b t fi t' chs ds _ H _. unfold ex_T in H. destruct (str_eqb t [97; 10]); [|discriminate].
     inversion H; subst. reflexivity.
   - eexists. split; [vm_compute; reflexivity|]. vm_compute. repeat split; discriminate.
